@@ -27,7 +27,7 @@ var maxU64 = "18446744073709551615"
 var leafSpecs = []leafSpec{
 	{'l', `1`, []SRule{Ru("min", "0"), Ru("min", "1"), Ru("max", "1"), Ru("max", "5.0"), Ru("exclusiveMinimum", "true"), Ru("exclusiveMaximum", "false"),
 		Ru("type", `"integer"`), Ru("const", "true"), Ru("const", "false"), Ru("nullable", "true"), Ru("nullable", "false"),
-		Ru("enum", `[1, 2]`), Ru("enum", `@e`), Ru("or", `["integer", "string"]`), Ru("or", `[{type: "integer", min: 0}, {type: "string"}]`), Ru("or", `[{type: "enum", enum: [1, "x"]}, {type: "boolean"}]`), Ru("or", `["uuid", "integer"]`), Ru("or", `["integer"]`),
+		Ru("enum", `[1, 2]`), Ru("enum", `@e`), Ru("or", `["integer", "string"]`), Ru("or", `[{type: "integer", min: 0}, {type: "string"}]`), Ru("or", `[{type: "enum", enum: [1, "x"]}, {type: "boolean"}]`), Ru("or", `["uuid", "integer"]`), Ru("or", `["integer"]`), Ru("type", `""`), Ru("or", `["", "integer"]`), Ru("or", `[{type: ""}, {type: "integer"}]`), Ru("enum", `""`),
 		Ru("type", `"any"`), Ru("type", `"@a"`), Ru("type", `"mixed"`), Ru("type", `"enum"`)}},
 	{'l', `1.5`, []SRule{Ru("precision", "1"), Ru("precision", "2"), Ru("precision", two63), Ru("min", "0.5"), Ru("max", "1.50"), Ru("type", `"float"`), Ru("type", `"decimal"`), Ru("nullable", "true"), Ru("const", "true"), Ru("or", `["float", "email"]`)}},
 	{'l', `0.123456`, []SRule{Ru("precision", "6"), Ru("precision", "7"), Ru("precision", "10"), Ru("precision", "16"), Ru("min", "0"), Ru("nullable", "true")}},
@@ -47,7 +47,7 @@ var leafSpecs = []leafSpec{
 	{'r', `@a  |	@c | @b`, nil},
 	{'r', `@a | @b | @a`, []SRule{Ru("nullable", "true")}},
 	{'o', ``, []SRule{Ru("additionalProperties", "true"), Ru("additionalProperties", "false"), Ru("additionalProperties", `"string"`), Ru("additionalProperties", `"@a"`), Ru("additionalProperties", `"any"`),
-		Ru("allOf", `"@a"`), Ru("allOf", `["@a", "@c"]`), Ru("allOf", `["@a"]`), Ru("nullable", "true"), Ru("type", `"object"`), Ru("or", `[{type: "object"}, {type: "string"}]`), Ru("or", `["uri", "object"]`), Ru("type", `"@a"`), Ru("type", `"any"`)}},
+		Ru("allOf", `"@a"`), Ru("allOf", `["@a", "@c"]`), Ru("allOf", `["@a"]`), Ru("allOf", `""`), Ru("additionalProperties", `""`), Ru("nullable", "true"), Ru("type", `"object"`), Ru("or", `[{type: "object"}, {type: "string"}]`), Ru("or", `["uri", "object"]`), Ru("type", `"@a"`), Ru("type", `"any"`)}},
 	{'a', ``, []SRule{Ru("minItems", "0"), Ru("maxItems", "0"), Ru("minItems", "1"), Ru("maxItems", "3"), Ru("maxItems", big20), Ru("maxItems", maxU64), Ru("type", `"array"`), Ru("nullable", "true"), Ru("or", `["array", "@a"]`), Ru("type", `"any"`), Ru("type", `"@l"`), Ru("or", `["@l", "string"]`)}},
 	{'r', `@l`, []SRule{Ru("nullable", "true")}},
 	{'r', `@n | @l`, nil},
